@@ -400,6 +400,12 @@ pub fn run(run: &mut Run) {
     // through packets: every wire form, and every 7th perturbation
     let mut via: Vec<[u8; 6]> = TRACK_VARIANTS.iter().map(|v| expected_wire(v)).collect();
     via.extend(pert.iter().step_by(7).cloned());
+    // values a lenient reader might wave through: blank / filler fields, wrong case, shifted, unterminated
+    for special in [[0u8; 6], [0xFF; 6], [b' '; 6], *b"bl1\0\0\0", *b"Bl1\0\0\0", *b"\0BL1\0\0", *b"BL1   ", *b"BL1\0\0X", *b"BL\0\0\0\0", *b"B\0\0\0\0\0", *b"BL1BL1", *b"RO10X\0", *b"RO10XX", *b"ro10x\0"] {
+        if wires().get(&special).is_none() || special == *b"RO10X\0" {
+            via.push(special);
+        }
+    }
     run.list(&Perturbed, "perturbed-wire-forms", pert);
     run.list(&ViaPackets, "through-sta-rst-hos-frames", via);
     let alphabet = prop_oneof![
@@ -409,5 +415,8 @@ pub fn run(run: &mut Run) {
     ];
     let strat = prop::array::uniform6(alphabet);
     let n = run.budget(1_000_000, 20_000_000);
-    run.prop(&Random, strat, n);
+    run.prop(&Random, strat.clone(), n);
+    // random values through the three packet kinds as well (a packet-level reader may treat the field differently)
+    let n = run.budget(100_000, 3_000_000);
+    run.prop(&ViaPackets, strat, n);
 }
